@@ -196,6 +196,22 @@ def parse_rvalue(s: str):
         m = re.match(r"&(raw const |raw mut |mut |fake shallow |fake )?", s)
         kind = (m.group(1) or "").strip()
         return ("ref", kind, parse_place(s[m.end():]))
+    if s.endswith(")") and find_top(s, " as ") > 0 and not s.startswith(("&", "[", "(")):
+        depth = 0
+        for j in range(len(s) - 1, -1, -1):
+            if s[j] == ")":
+                depth += 1
+            elif s[j] == "(":
+                depth -= 1
+                if depth == 0:
+                    break
+        kind = s[j + 1:-1]
+        if re.match(r"^(IntToInt|IntToFloat|FloatToInt|FloatToFloat|Transmute|PtrToPtr|FnPtrToPtr|PointerCoercion\(|PointerExposeProvenance|PointerWithExposedProvenance|Subtype)", kind) and s[j - 1] == " ":
+            k = find_top(s, " as ")
+            opnd = s[:k].strip()
+            if not opnd.startswith(("copy ", "move ", "const ", "no_retag ")):
+                opnd = "const " + opnd
+            return ("cast", parse_operand(opnd), s[k + 4:j].strip(), kind)
     if s.startswith(("copy ", "move ", "const ", "no_retag ")):
         # cast?   OP as TYPE (Kind)
         m = re.match(r"^(.*) as (.*) \(([A-Za-z]+(\(.*\))?)\)$", s, re.S)
@@ -203,8 +219,15 @@ def parse_rvalue(s: str):
             k = find_top(s, " as ")
             op = parse_operand(s[:k])
             tail = s[k + 4:]
-            j = tail.rfind(" (")
-            return ("cast", op, tail[:j].strip(), tail[j + 2:-1])
+            depth = 0
+            for j in range(len(tail) - 1, -1, -1):
+                if tail[j] == ")":
+                    depth += 1
+                elif tail[j] == "(":
+                    depth -= 1
+                    if depth == 0:
+                        break
+            return ("cast", op, tail[:j].strip(), tail[j + 1:-1])
         return ("use", parse_operand(s))
     m = re.match(r"^([A-Za-z]+)\(", s)
     if m and m.group(1) in BINOPS and s.endswith(")"):
@@ -414,7 +437,10 @@ class MirProgram:
                 # name is up to the '(' that starts the parameter list: first top-level '('
                 rest = ln[3:]
                 k = find_top(rest, "(")
-                self.fn_index.setdefault(rest[:k], i)
+                nm = rest[:k]
+                if nm in self.fn_index:
+                    nm = f"{nm}@{i}"
+                self.fn_index[nm] = i
             elif ln.startswith("const ") or ln.startswith("static "):
                 rest = ln.split(" ", 1)[1]
                 if rest.startswith("mut "):
@@ -486,11 +512,40 @@ class MirProgram:
                 return m.group(2)
         return None
 
+    def header_self_types(self, name):
+        """Self type of a method guessed from its header (macro-generated impls): the first
+        parameter's type if it is a self-like parameter, else the return type."""
+        hdr = self.lines[self.fn_index[name]]
+        rest = hdr[3 + len(name.split("@")[0]):]
+        k = match_close(rest, 0)
+        params = split_top(rest[1:k])
+        def clean(t):
+            t = t.strip()
+            t = re.sub(r"^&('\w+ )?(mut )?", "", t)
+            return t
+        out = []
+        if params and params[0]:
+            m = re.match(r"_1: (.*)$", params[0], re.S)
+            if m:
+                out.append(clean(m.group(1)))
+        m = re.match(r"\s*->\s*(.*)\s*\{\s*$", rest[k + 1:], re.S)
+        if m:
+            r = clean(m.group(1))
+            out.append(r)
+            mm = re.match(r"^std::(?:option::Option|result::Result)<(.*)>$", r)
+            if mm:
+                out.append(clean(split_top(mm.group(1))[0]))
+        return out
+
+    def header_self_type(self, name):
+        t = self.header_self_types(name)
+        return t[0] if t else None
+
     def _build_impl_index(self):
         """(last type name, method) -> [full fn names]; also trait-qualified."""
         self.methods = {}
         for name in self.fn_index:
-            m = re.search(r"<(impl at [^>]*)>::([^:]+(::\{closure#\d+\})*)$", name)
+            m = re.search(r"<(impl at [^>]*)>::([^:@]+(::\{closure#\d+\})*)(@\d+)?$", name)
             if not m:
                 continue
             self.methods.setdefault(m.group(2), []).append(name)
@@ -507,6 +562,11 @@ class MirProgram:
         for name in self.methods.get(method, []):
             tag = re.search(r"<(impl at [^>]*)>", name).group(1)
             tr, ty = self.impl_info(tag)
+            if ty is None or "$" in ty:
+                tys = self.header_self_types(name)
+                if want_ty not in [last(t) for t in tys]:
+                    continue
+                ty = want_ty
             if ty is None:
                 continue
             if last(ty) != want_ty:
@@ -566,6 +626,56 @@ class MirProgram:
         self._enum_cache[name] = res
         return res
 
+    # --- struct field order (with cfg(feature) filtering) from the crate sources
+    def struct_fields(self, ty: str, features=("ipc", "inproc", "plain")):
+        base = re.sub(r"<.*>", "", ty).strip()
+        name = base.split("::")[-1]
+        key = ("struct", name)
+        if key in self._enum_cache:
+            return self._enum_cache[key]
+        mod = base.split("::")[:-1]
+        srcroot = os.path.join(self.repo_core, "src")
+        cands = []
+        for d, _, fn in os.walk(srcroot):
+            for f in fn:
+                if f.endswith(".rs"):
+                    cands.append(os.path.join(d, f))
+        def score(p):
+            rel = os.path.relpath(p, srcroot)[:-3].replace("/mod", "").split("/")
+            return -sum(1 for a, b in zip(rel, mod) if a == b)
+        res = None
+        for p in sorted(cands, key=score):
+            txt = open(p, errors="replace").read()
+            m = re.search(r"\bstruct\s+" + re.escape(name) + r"\b[^{;(]*\{", txt)
+            if not m:
+                continue
+            k = match_close(txt, m.end() - 1)
+            body = txt[m.end():k]
+            body = re.sub(r"//[^\n]*", "", body)
+            body = re.sub(r"/\*.*?\*/", "", body, flags=re.S)
+            res = []
+            for item in split_top(body, ","):
+                item = item.strip()
+                if not item:
+                    continue
+                skip = False
+                for cm in re.finditer(r"#\[cfg\((.*?)\)\]", item):
+                    cond = cm.group(1)
+                    fm = re.match(r'(not\()?feature\s*=\s*"([\w-]+)"\)?', cond)
+                    if fm:
+                        on = fm.group(2) in features
+                        if fm.group(1):
+                            on = not on
+                        if not on:
+                            skip = True
+                item2 = re.sub(r"#\[[^\]]*\]", "", item).strip()
+                mm = re.match(r"(?:pub(?:\([^)]*\))?\s+)?(\w+)\s*:", item2)
+                if mm and not skip:
+                    res.append(mm.group(1))
+            break
+        self._enum_cache[key] = res
+        return res
+
     # --- bodies
     def body(self, name: str) -> Body:
         if name in self._bodies:
@@ -585,7 +695,7 @@ class MirProgram:
         hdr = self.lines[start]
         b.raw_header = hdr
         if kind == "fn":
-            rest = hdr[3 + len(name):]
+            rest = hdr[3 + len(name.split("@")[0]):]
             k = match_close(rest, 0)
             params = split_top(rest[1:k])
             b.params = []
